@@ -163,6 +163,30 @@ func matchFinish(s *Summary) {
 	s.info("pool", len(st.hdr.Pool))
 }
 
+// splitAtSegment cuts a route pattern at one of its top-level '/' (outside {..} and [..], not the first character):
+// pattern == prefix + rest, rest starts with '/'. which selects the cut; ("", pattern) when there is none.
+func splitAtSegment(pattern string, which int) (string, string) {
+	var cuts []int
+	depth := 0
+	for i := 0; i < len(pattern); i++ {
+		switch pattern[i] {
+		case '{', '[', '(':
+			depth++
+		case '}', ']', ')':
+			depth--
+		case '/':
+			if depth == 0 && i > 0 && pattern[i-1] != '/' && i < len(pattern)-1 {
+				cuts = append(cuts, i)
+			}
+		}
+	}
+	if len(cuts) == 0 {
+		return "", pattern
+	}
+	c := cuts[which%len(cuts)]
+	return pattern[:c], pattern[c:]
+}
+
 func paramsEqual(ps rux.Params, b map[string]string) bool {
 	if len(ps) != len(b) {
 		return false
@@ -224,6 +248,14 @@ func matchRunTable(st *matchState, t matchTable) {
 						rt.AttachTo(b.r)
 						return rt
 					}
+					if name == "grouped" {
+						// the same pattern written as a group prefix plus the rest of the path: the table entry is the JOINED pattern
+						if pre, rest := splitAtSegment(st.hdr.Pool[e.P-1], i); pre != "" {
+							var rt *rux.Route
+							b.r.Group(pre, func() { rt = b.r.AddNamed(tag, rest, h, e.Ms...) })
+							return rt
+						}
+					}
 					return b.r.AddNamed(tag, st.hdr.Pool[e.P-1], h, e.Ms...)
 				}
 				b.routes = append(b.routes, add(func(c *rux.Context) {
@@ -245,7 +277,7 @@ func matchRunTable(st *matchState, t matchTable) {
 		}
 		return b
 	}
-	routers := []*built{mk("plain", 1), mk("cache1", 2, rux.CachingWithNum(1)), mk("cache1000", 2, rux.EnableCaching)}
+	routers := []*built{mk("plain", 1), mk("cache1", 2, rux.CachingWithNum(1)), mk("cache1000", 2, rux.EnableCaching), mk("grouped", 1)}
 	cells, compared := 0, 0
 	// two sweeps over all cells: in the second one every dynamic cell of the big cache is a hit that is NOT preceded by
 	// its own miss (entries of one route must not share parameters), and the small cache has evicted everything
